@@ -23,7 +23,7 @@ Emit(c) == /\ pc = "collect" /\ Len(stmts) < 5 * MaxStatements
            /\ interned' = IF \E i \in DOMAIN interned : interned[i] = c THEN interned ELSE Append(interned, c)
            /\ UNCHANGED <<doc, pc>>
 Assemble == /\ pc = "collect" /\ pc' = "done"
-            /\ doc' = LET defs == IF DefineOnlyFirst THEN SubSeq(interned, 1, 1) ELSE interned
+            /\ doc' = LET defs == IF DefineOnlyFirst /\ Len(interned) > 0 THEN SubSeq(interned, 1, 1) ELSE interned
                       IN FoldLeft(LAMBDA acc, c : acc \o <<[t |-> "def", c |-> c]>>, <<>>, defs)
                          \o <<Tok("begin")>> \o stmts \o <<Tok("end")>>
             /\ UNCHANGED <<stmts, interned>>
